@@ -153,6 +153,29 @@ pub fn run(em: &mut Emit, thorough: bool, seed: u64) {
         SData::Map(vec![(SData::Some(Box::new(SData::Bool(true))), SData::I64(1))], true, false),
         SData::Map(vec![(SData::NewtypeVariant("E", 0, "A", Box::new(SData::I64(1))), SData::I64(1))], true, false),
         SData::Map(vec![(SData::Str("a".into()), SData::Map(vec![(SData::F32(1.0), SData::Unit)], true, true))], true, true),
+        // every remaining kind of key the key serializer is asked about (the compound ones it refuses)
+        SData::Map(vec![(SData::Tuple(vec![SData::I64(1), SData::I64(2)]), SData::I64(1))], true, true),
+        SData::Map(vec![(SData::Tuple(vec![]), SData::I64(1))], true, false),
+        SData::Map(vec![(SData::TupleStruct("P", vec![SData::Bool(true)]), SData::I64(1))], true, true),
+        SData::Map(vec![(SData::TupleVariant("E", 2, "T", vec![SData::Str("a".into())]), SData::I64(1))], true, false),
+        SData::Map(vec![(SData::Map(vec![(SData::Str("k".into()), SData::I64(1))], true, true), SData::I64(1))], true, true),
+        SData::Map(vec![(SData::Map(vec![], false, false), SData::I64(1))], false, false),
+        SData::Map(vec![(SData::StructVariant("E", 3, "S", vec![("f", SData::I64(1))]), SData::I64(1))], true, true),
+        SData::Map(vec![(SData::Struct("S", vec![("f", SData::I64(1))]), SData::I64(1))], true, false),
+        SData::Map(vec![(SData::Struct("S", vec![]), SData::I64(1))], true, true),
+        SData::Map(vec![(SData::UnitStruct("U"), SData::I64(1))], true, true),
+        SData::Map(vec![(SData::NewtypeStruct("N", Box::new(SData::I64(7))), SData::I64(1)), (SData::NewtypeStruct("N", Box::new(SData::Str("7".into()))), SData::I64(2))], true, false),
+        SData::Map(vec![(SData::NewtypeStruct("N", Box::new(SData::Tuple(vec![SData::I64(1)]))), SData::I64(1))], true, true),
+        SData::Map(vec![(SData::I128(5), SData::I64(1))], true, true),
+        SData::Map(vec![(SData::U128(5), SData::I64(1))], true, false),
+        SData::Map(vec![(SData::F32(0.5), SData::I64(1))], true, true),
+        SData::Map(vec![(SData::Seq(vec![SData::I64(1)], false), SData::I64(1))], true, true),
+        SData::Map(vec![(SData::Some(Box::new(SData::Tuple(vec![SData::I64(1)]))), SData::I64(1))], true, true),
+        SData::Map(vec![(SData::Duration(chrono::Duration::seconds(1)), SData::I64(1))], true, true),
+        SData::Map(vec![(SData::Timestamp(chrono::DateTime::parse_from_rfc3339("2000-01-01T00:00:00+01:00").unwrap()), SData::I64(1))], true, false),
+        // an unsupported key after supported ones, and nested below supported data
+        SData::Map(vec![(SData::Str("a".into()), SData::I64(1)), (SData::Tuple(vec![SData::I64(1)]), SData::I64(2)), (SData::Str("b".into()), SData::I64(3))], true, true),
+        SData::Seq(vec![SData::I64(1), SData::Map(vec![(SData::StructVariant("E", 0, "S", vec![]), SData::Unit)], true, true)], true),
         SData::Struct("S", vec![]), SData::Struct("S", vec![("a", SData::I64(1)), ("b", SData::Seq(vec![SData::None], true))]),
         SData::Struct("S", vec![("a", SData::I64(1)), ("a", SData::I64(2))]),
         SData::Struct("Duration", vec![("secs", SData::I64(1)), ("nanos", SData::I64(2))]),
@@ -188,6 +211,68 @@ pub fn run(em: &mut Emit, thorough: bool, seed: u64) {
     }
     for d in &fixed {
         emit_sdata(em, d, "fixed");
+    }
+    // Data that reuses the private marker names of the Duration / Timestamp wrappers (any
+    // `Serialize` implementation may emit them): never a panic; a value only for what the wrappers
+    // themselves send (a struct `Duration {secs, nanos}` in range, an RFC 3339 string), an error
+    // for everything else.  A law on the implementation: the Coq data model has no marker names.
+    {
+        const DUR: &str = "$__cel_private_Duration";
+        const TS: &str = "$__cel_private_Timestamp";
+        let dur = |secs: SData, nanos: SData| SData::Struct("Duration", vec![("secs", secs), ("nanos", nanos)]);
+        let mut inner: Vec<(SData, Option<Value>, Option<Value>)> = vec![
+            (dur(SData::I64(5), SData::I64(7)), Some(Value::Duration(chrono::Duration::seconds(5) + chrono::Duration::nanoseconds(7))), None),
+            (dur(SData::I64(-5), SData::I64(-7)), Some(Value::Duration(chrono::Duration::seconds(-5) + chrono::Duration::nanoseconds(-7))), None),
+            (dur(SData::I64(i64::MAX / 1000), SData::I64(0)), Some(Value::Duration(chrono::Duration::seconds(i64::MAX / 1000))), None),
+            (SData::Str("2000-01-01T00:00:00+01:00".into()), None, Some(Value::Timestamp(chrono::DateTime::parse_from_rfc3339("2000-01-01T00:00:00+01:00").unwrap()))),
+        ];
+        for bad in [
+            dur(SData::I64(i64::MAX), SData::I64(0)), dur(SData::I64(i64::MIN), SData::I64(0)), dur(SData::I64(i64::MAX / 1000 + 1), SData::I64(0)),
+            dur(SData::I64(i64::MAX / 1000), SData::I64(999_999_999)), dur(SData::I64(1), SData::I64(i64::MAX)), dur(SData::U64(1), SData::I64(0)),
+            dur(SData::Str("1".into()), SData::I64(0)), dur(SData::I64(1), SData::F64(0.0)),
+            SData::Struct("Duration", vec![("secs", SData::I64(1))]), SData::Struct("Duration", vec![("secs", SData::I64(1)), ("nanos", SData::I64(1)), ("x", SData::I64(1))]),
+            SData::Struct("Duration", vec![("seconds", SData::I64(1)), ("nanos", SData::I64(1))]), SData::Struct("Other", vec![("secs", SData::I64(1)), ("nanos", SData::I64(1))]),
+            SData::Struct("Duration", vec![]), SData::Str("not a time".into()), SData::Str(String::new()),
+            SData::Bool(true), SData::I8(1), SData::I16(1), SData::I32(1), SData::I64(5), SData::U8(1), SData::U16(1), SData::U32(1), SData::U64(1),
+            SData::I128(1), SData::U128(1), SData::F32(1.0), SData::F64(1.0), SData::Char('c'), SData::Bytes(vec![1]), SData::None,
+            SData::Some(Box::new(SData::I64(1))), SData::Some(Box::new(SData::Str("2000-01-01T00:00:00Z".into()))), SData::Unit, SData::UnitStruct("U"),
+            SData::UnitVariant("E", 0, "A"), SData::NewtypeStruct("N", Box::new(SData::I64(1))), SData::NewtypeStruct(DUR, Box::new(SData::I64(1))),
+            SData::NewtypeVariant("E", 0, "A", Box::new(SData::I64(1))), SData::Seq(vec![SData::I64(1)], true), SData::Seq(vec![], false),
+            SData::Tuple(vec![SData::I64(1)]), SData::TupleStruct("T", vec![SData::I64(1)]), SData::TupleVariant("E", 0, "A", vec![SData::I64(1)]),
+            SData::Map(vec![(SData::Str("secs".into()), SData::I64(1))], true, true), SData::Map(vec![], false, false),
+            SData::StructVariant("E", 0, "A", vec![("secs", SData::I64(1))]), SData::Duration(chrono::Duration::seconds(1)),
+        ] {
+            inner.push((bad, None, None));
+        }
+        for (d, as_dur, as_ts) in inner {
+            for (name, want) in [(DUR, &as_dur), (TS, &as_ts)] {
+                for nest in 0..3 {
+                    let marked = SData::NewtypeStruct(name, Box::new(d.clone()));
+                    let data = match nest {
+                        0 => marked,
+                        1 => SData::Seq(vec![SData::I64(1), marked], true),
+                        _ => SData::Struct("S", vec![("f", SData::Some(Box::new(marked)))]),
+                    };
+                    let disp = format!("{:?}", data);
+                    let (want, data2) = (want.clone(), data.clone());
+                    let law = guarded(move || match (to_value(&data2), want) {
+                        (Ok(v), Some(w)) => {
+                            let got = match (nest, &v) {
+                                (0, _) => Some(v.clone()),
+                                (1, Value::List(l)) => l.get(1).cloned(),
+                                (_, Value::Map(m)) => m.get(&"f".to_string().into()).cloned(),
+                                _ => None,
+                            };
+                            if got.as_ref() == Some(&w) { "(bool true)".into() } else { format!("(law-violated marker-value {:?} instead of {:?})", v, w) }
+                        }
+                        (Ok(v), None) => format!("(law-violated marker-misuse-accepted {:?})", v),
+                        (Err(e), Some(w)) => format!("(law-violated marker-refused {:?} instead of {:?})", e, w),
+                        (Err(_), None) => "(bool true)".into(),
+                    });
+                    em.case("(echo (bool true))", &law, "nt=1;kind=law-marker", &disp);
+                }
+            }
+        }
     }
     let n = if thorough { 300_000 } else { 12_000 };
     for _ in 0..n {
